@@ -2,6 +2,7 @@
 fields.validated_field_name (C09, C20, C13, C17)."""
 import io, itertools, keyword, string, z3
 from .common import *
+from vf import findings
 from vf.unit import ProofUnit, NativeUnit, Oracle, sweep
 from vf.model import *
 
@@ -198,6 +199,10 @@ def defects(rows):
             yield "distinct count rule naming an undeclared field behind 'or'", put(i, 3, "kind < 3 or nosuchfield > 1"), i
             yield "distinct count rule naming another declared field", put(i, 3, "kind < 3 and id > 1"), i
             yield "distinct count rule calling a function", put(i, 3, "kind < 3 or len(kind) > 1"), i
+            yield "distinct count rule calling a lambda", put(i, 3, "kind < 3 or (lambda: 1)()"), i
+            yield "distinct count rule without a comparison", put(i, 3, "kind"), i
+            yield "distinct count rule that is a sum", put(i, 3, "kind + 1"), i
+            yield "distinct count rule of thousands of operands", put(i, 3, "kind" + " + 1" * 3000 + " > 0"), i
         if rows[i][2] == "DistinctCount": yield "distinct count rule that is no expression", put(i, 3, "kind <"), i; yield "distinct count rule starting with a number", put(i, 3, "3 < kind"), i
 
 
@@ -248,7 +253,66 @@ def unit_c09_catalogue():
             if got != before + ["added later", "added last"] or list(cid.check_map) != got: return {"expected": before + ["added later", "added last"], "observed": got}
         r3 = sweep("C09/catalogue/checks added with Cid.add_check are registered in order", ac_cases(), ac_check, "bounded", "the base CIDs with a field 'id' x two added checks", describe=lambda c: {"cid": c[0]},
                    function="interface.Cid.add_check", unit="C09.catalogue", props=["C09", "C20"])
-        return [r1, r2_, r3]
+        # a plug-in check (or field format) that refuses its rule without saying where: the rejection still names the row
+        def nl_cases():
+            yield "check"; yield "field"
+        def nl_check(kind):
+            from cutplace import checks, fields
+            class NoLocationCheck(checks.AbstractCheck):
+                def __init__(self, description, rule, available_field_names, location=None):
+                    super().__init__(description, rule, available_field_names, location)
+                    if rule == "bad": raise errors.InterfaceError("rule must be good")
+            class NoLocationFieldFormat(fields.AbstractFieldFormat):
+                def __init__(self, field_name, is_allowed_to_be_empty, length, rule, data_format):
+                    super().__init__(field_name, is_allowed_to_be_empty, length, rule, data_format, empty_value="")
+                    if rule == "bad": raise errors.InterfaceError("rule must be good")
+                def validated_value(self, value): return value
+            rows = [["d", "format", "delimited"], ["f", "a"], ["f", "b", "", "", "", "NoLocation", "bad" if kind == "field" else "good"], ["c", "x", "NoLocation", "bad" if kind == "check" else "good"]]
+            blame = 3 if kind == "check" else 2
+            try: read(rows)
+            except errors.InterfaceError as e:
+                return None if ("R%dC" % (blame + 1)) in str(e) else {"expected": "rejection naming row %d" % (blame + 1), "observed": str(e)[:160]}
+            return {"expected": "rejected", "observed": "accepted"}
+        r4 = sweep("C09/catalogue/a plug-in class refusing its rule without a location is still reported at its row", nl_cases(), nl_check, "bounded", "a check and a field format defined for the purpose", describe=lambda k: {"plug-in": k},
+                   function="interface.Cid.add_check_row / add_field_format_row", unit="C09.catalogue", props=["C09", "C20"])
+        # a CID whose file cannot be parsed is a rejected CID: an interface error, not a data error
+        def broken_cases():
+            yield ("csv with an unterminated quote", "b1.csv", b'd,format,delimited\nf,"id\n'); yield ("csv that is not UTF-8", "b2.csv", b"d,format,delimited\nf,n\xe4me\n")
+            yield ("non-zip ods", "b3.ods", b"this is no zip archive"); yield ("damaged xlsx", "b4.xlsx", b"PK\x03\x04 damaged"); yield ("zero-byte ods", "b5.ods", b"")
+        def broken_check(c):
+            import tempfile, shutil, os
+            label, name, blob = c; d = tempfile.mkdtemp(prefix="vf_c09_")
+            try:
+                p_ = os.path.join(d, name); open(p_, "wb").write(blob)
+                try: interface.Cid(p_)
+                except errors.InterfaceError as e: return None
+                except Exception as e: return {"expected": "InterfaceError (the problem is in the CID)", "observed": "%s: %s" % (type(e).__name__, str(e)[:120])}
+                return {"expected": "InterfaceError", "observed": "accepted"}
+            finally: shutil.rmtree(d, ignore_errors=True)
+        r5 = sweep("C09/catalogue/a CID file that cannot be parsed is refused with an interface error", broken_cases(), broken_check, "bounded", "5 damaged CID files (csv, ods, xlsx)", describe=lambda c: {"cid file": c[0]},
+                   function="interface.Cid.__init__ / read", unit="C09.catalogue", props=["C09", "C10"])
+        # an example is checked when its field row is read, with the data format as it is then (recorded finding K-15): property rows that follow can turn an accepted example into one the finished field rejects, and the other way round
+        known15 = findings.is_known("K-15", "C09"); k15 = []
+        def ex_cases():
+            yield ("accepted although the finished field rejects it", [["d", "format", "delimited"], ["f", "amount", "1.5", "", "", "Decimal"], ["d", "decimal separator", ","]], False)
+            yield ("refused although the finished field accepts it", [["d", "format", "delimited"], ["f", "amount", "1,5", "", "", "Decimal"], ["d", "decimal separator", ","]], True)
+            yield ("accepted although a later allowed-characters row excludes it", [["d", "format", "delimited"], ["f", "name", "M\u00fcller"], ["d", "allowed characters", "32...126"]], False)
+            yield ("control: property row first, example valid", [["d", "format", "delimited"], ["d", "decimal separator", ","], ["f", "amount", "1,5", "", "", "Decimal"]], True)
+            yield ("control: property row first, example invalid", [["d", "format", "delimited"], ["d", "decimal separator", ","], ["f", "amount", "1.5", "", "", "Decimal"]], False)
+        def ex_check(c):
+            label, rows, want = c
+            try: read(rows); got = True
+            except errors.InterfaceError: got = False
+            if got == want: return None
+            if known15 and not label.startswith("control"): k15.append((label, rows)); return None
+            return {"expected": "CID %s" % ("accepted" if want else "refused"), "observed": "accepted" if got else "refused"}
+        r6 = sweep("C09/catalogue/an example is judged by the finished field", ex_cases(), ex_check, "bounded", "3 CIDs with a property row after the field row + 2 controls" + (" (recorded finding K-15)" if known15 else ""),
+                   describe=lambda c: {"case": c[0], "rows": c[1]}, function="interface.Cid.add_field_format_row", unit="C09.catalogue", props=["C09", "C11", "C02"])
+        out_ = [r1, r2_, r3, r4, r5, r6]
+        if k15:
+            out_.append(Result("C09/K-15 witness: an example is judged with the data format as it is when its field row is read (%d cases)" % len(k15), "bounded", FAILED, "native", finding="K-15", cases=len(k15), props=["C09"], detail=repr(k15[0])[:300],
+                               replay={"verdict": "confirmed", "input": {"rows": k15[0][1]}, "expected": "an example the finished field accepts (or the CID refused)", "observed": k15[0][0]}))
+        return out_
     return NativeUnit("C09.catalogue", "bounded stand-in: rewrite and one-defect catalogues end to end against Cid.read", ["C09"], run, kind="bounded")
 
 
@@ -423,6 +487,32 @@ def unit_add_check_row():
                 "assumptions": ["check classes are abstract (plug-ins): constructing one either succeeds or raises an InterfaceError (the built-in constructors have their own contracts)",
                                 "the class map and the check map are arbitrary dicts (symbolic); A-STR: strip() uninterpreted"]}
     return ProofUnit("interface.Cid.add_check_row", "add_check_row: description non-empty and unique, type known, check built with the declared field names, registered in order; errors at the current row", ["C09", "C20", "C10"], make, None)
+
+
+def unit_add_check():
+    """Cid.add_check: the programmatic twin of a check row - the check is registered under its description, after the ones already there"""
+    CHK = Abs("CheckObj")
+    def setup(ex, st):
+        checks, c2 = fresh_ufdict(STR, sort_of(CHK), "checks", lambda st_, v: v.z, lambda st_, z: Sym(CHK, z)); st.pc.extend(c2)
+        names, c3 = fresh(UFList(STR), "check_names"); st.pc.extend(c3); st.pc.append(names.length == checks.size)
+        desc = fresh(STR, "description")[0]; st.pc.append(z3.Not(checks.has(desc.z)))            # documented precondition (assert): the description is new
+        chk = fresh(CHK, "check_to_add")[0]
+        self = Ref("Cid"); st.heap[self.oid] = {"_check_name_to_check_map": checks, "_check_names": names}
+        st.frames[-1].env.update({"self": self, "check_to_add": chk}); st.ghost.update({"this": self, "checks0": checks, "names0": names, "desc": desc, "chk": chk})
+    def absattr_description(ex, st, recv): return st.ghost["desc"]
+    def post(ex, st):
+        o = st.heap[st.ghost["this"].oid]; d1, names1, names0 = o["_check_name_to_check_map"], o["_check_names"], st.ghost["names0"]; desc = G(st, "desc")
+        if not (isinstance(d1, UFDict) and isinstance(names1, UFL)): return Sym(BOOL, z3.BoolVal(False))
+        j = z3.Int("j!ac")
+        return Sym(BOOL, z3.And(d1.has(desc), d1.val(desc) == st.ghost["chk"].z, names1.length == names0.length + 1, names1.at(names0.length) == desc,
+                                z3.ForAll([j], z3.Implies(z3.And(0 <= j, j < names0.length), names1.at(j) == names0.at(j)))))
+    def make(ctx):
+        c = Contract("interface.Cid.add_check", setup,
+                returns=[Clause(post, "the-check-is-registered-under-its-description-after-the-checks-already-declared-(whose-order-is-kept)", props=["C09", "C20"])],
+                raises={}, expect=["return"], n_loops=0, raises_only_props=["C09", "C10", "C20"])
+        return {"contract": c, "callees": {"absattr:CheckObj.description": absattr_description},
+                "assumptions": ["the check is abstract (any AbstractCheck descendant); its description is new (the method's documented precondition, an assert)"]}
+    return ProofUnit("interface.Cid.add_check", "Cid.add_check: registers a check object under its description, in order", ["C09", "C20", "C10"], make, None)
 
 
 # =====================================================================================================================
